@@ -46,8 +46,10 @@ func (p *NamespaceEscalation) Check(
 				Position: "Object " + obj.GetName(),
 				Error:    "Must stay within the same namespace.",
 			})
+			return
 		}
-		return
+		// The namespace matches the owner (callers default it before running preflight),
+		// the object still has to be of a namespace-scoped kind.
 	}
 
 	gvk := obj.GetObjectKind().GroupVersionKind()
